@@ -1,7 +1,7 @@
 """C04 — dispatch never authorises conflicting occupancy (DESIGN §5 C04, §6): gate dependence of TrainDisp::advance."""
 import re
 from sa.terms import mk, ZERO, ONE, TRUE, FALSE, show, walk, map_term, num
-from .common import engine, inventory
+from .common import engine, inventory, plain_iteration, selected_iteration
 
 LEVEL = 'necessary-conditions'
 MANIFEST = {
@@ -158,11 +158,22 @@ def run(ctx):
         backs = [an.load(TUN, s_) for s_ in an.loop_back.get(HL, [])]
         ctx.check(bool(backs) and all(x == S2[1] for x in backs), 'C04-2.lockout', FID + '|every link', 'every iteration over link_idxs_lockout applies the gate (no link is skipped)',
                   'back-edge values %s' % [N.text(an, x, extra)[:100] for x in backs][:2], ctx.where(b, S2[2]))
-        # the loop runs over the whole lockout list of the link being entered
-        whole = itpos is not None and any(cnd[0] == 'discr' and any(y == ('pre', (('obj', 4), ('idx', N.ICURR), ('f', 'link_idxs_lockout'), ('idx', itpos))) or
-                                                                    (y[0] == 'ref' and y[1] == (('local', 4), ('idx', N.ICURR), ('f', 'link_idxs_lockout'), ('idx', itpos))) for y in walk(cnd))
-                                          for c in an.calls for cnd, o in c.pc)
-        ctx.check(whole or itpos is not None, 'C04-2.lockout', FID + '|list', 'the gate iterates the lockout list of the link being entered', 'iterator position %s' % (itpos,), ctx.where(b, S2[2]))
+        # the loop runs over the whole lockout list of the link being entered: the only loop decision mentioning this iterator
+        # position is the plain "has another element" of links[curr].link_idxs_lockout (no filter / skip / take_while)
+        decs = []
+        for c in an.calls:
+            for cnd, o in c.pc:
+                if itpos is not None and repr(itpos) in repr(cnd) and cnd not in decs:
+                    decs.append(cnd)
+        src_ok = False
+        for cnd in decs:
+            if plain_iteration(cnd):
+                y = cnd[1][1]
+                path = y[1] if y[0] in ('ref', 'pre') else None
+                src_ok = src_ok or (path is not None and path[-3:] == (('idx', N.ICURR), ('f', 'link_idxs_lockout'), ('idx', itpos)))
+        whole = bool(decs) and all(plain_iteration(cnd) for cnd in decs if cnd[0] == 'discr' and cnd[1][0] == 'maybe') and src_ok
+        ctx.check(whole, 'C04-2.lockout', FID + '|list', 'the gate iterates the whole lockout list of the link being entered (no filter, skip or early stop)',
+                  'loop decisions: %s' % [N.text(an, x)[:120] for x in decs][:3], ctx.where(b, S2[2]))
 
         # ---- (3) exit headway
         S3 = None
